@@ -60,6 +60,10 @@ type nodeOpts struct {
 	NumVB            int    `json:"num_vb,omitempty"`
 	SyncFn           string `json:"sync_fn,omitempty"`
 	ReadFaults       bool   `json:"read_faults,omitempty"`
+	QueryFaults      bool   `json:"query_faults,omitempty"`    // view queries may fail
+	DedupDocsOnly    bool   `json:"dedup_docs_only,omitempty"` // feed deduplication drops document mutations only
+	DedupOnlyKey     string `json:"dedup_only_key,omitempty"`  // feed deduplication drops mutations of this key only
+	FeedLagMs        int    `json:"feed_lag_ms,omitempty"`     // simulated time a mutation is on its way before it can be delivered
 	OldRevExpiryS    int    `json:"old_rev_expiry_s,omitempty"`
 	// rosmar buckets always report cross-cluster versioning enabled, which switches obsolete-attachment removal off;
 	// CCVOff makes the node believe what a Couchbase Server bucket without ECCV reports
@@ -187,6 +191,15 @@ func (w *simWorld) startNodeFrom(name string, o nodeOpts, inTask bool) (*simNode
 		n.node.NumVB = o.NumVB
 	}
 	n.node.ReadFaults = o.ReadFaults
+	n.node.QueryFaults = o.QueryFaults
+	if o.DedupDocsOnly {
+		n.node.FeedFaultKeys = func(key string) bool { return simstore.KeyClass(key) == "doc" }
+	}
+	n.node.FeedLag = time.Duration(o.FeedLagMs) * time.Millisecond
+	if o.DedupOnlyKey != "" {
+		only := o.DedupOnlyKey
+		n.node.FeedFaultKeys = func(key string) bool { return key == only }
+	}
 	n.bucket = simstore.Wrap(n.node, w.bucket)
 	var err error
 	call := func(label string, f func()) error { return w.sim.Call(label, f) }
